@@ -57,6 +57,18 @@ def chk_zoom(inp):
                         got = fn(P(X, Y).astype(float), (m, m), order=order)
                         if not numpy.allclose(got, P(XX, YY), rtol=1e-8, atol=1e-8):
                             return bad("%s(order %d) does not reproduce a polynomial of degree <= order on a %dx%d array" % (fn.__name__, order, n, n), float(abs(got - P(XX, YY)).max()), 0.0)
+        # integer-typed images: interpolated values are not integers (a linear ramp zoomed 8 -> 15 has half-integer samples)
+        ramp = numpy.add.outer(3 * numpy.arange(8), 2 * numpy.arange(8)) + 1
+        xs = numpy.linspace(0, 7, 15)
+        want_r = numpy.add.outer(3 * xs, 2 * xs) + 1
+        for dt in ("int64", "int32", "uint8", "float32"):
+            for order in (1, 3):
+                got = numpy.asarray(fn(ramp.astype(dt), 15, order=order), dtype=float)
+                if got.shape != (15, 15) or not numpy.allclose(got, want_r, rtol=0, atol=1e-4):
+                    return bad("%s of an integer-valued ramp (dtype %s, order %d) is not the ramp on the finer grid" % (fn.__name__, dt, order), float(abs(got - want_r).max()) if got.shape == (15, 15) else list(got.shape), 0.0)
+                same = numpy.asarray(fn(ramp.astype(dt), 8, order=order), dtype=float)
+                if not numpy.allclose(same, ramp, rtol=0, atol=1e-4):
+                    return bad("%s at unchanged size does not return the input for dtype %s (order %d)" % (fn.__name__, dt, order), float(abs(same - ramp).max()), 0.0)
         if fn(numpy.ones((5, 5)), 7).shape != (7, 7):
             return bad("%s does not accept a scalar newSize" % fn.__name__)
 
